@@ -462,6 +462,7 @@ func tuneProfile(p *Plan, r *Rng, thorough bool) {
 			p.Dispatch = append(p.Dispatch, sub)
 		}
 	case "C13":
+		p.FullEvery = []int{1, 4, 16, 64}[r.Intn(4)] // World.Stats() first sees a node at very different ages
 		w["setrel"], w["rm"], w["new"], w["batch"] = 18, 16, 18, 12
 		w["fnew"], w["freg"], w["funreg"] = 8, 10, 2
 		w["reset"] = 3
